@@ -167,6 +167,9 @@ class _Buf:
         self.parent = parent
 
     def write(self, data):
+        stall = self.parent.stall
+        if stall is not None:
+            stall.wait(30)        # a consumer of cond's own output that is slow to read (released by the scenario)
         self.parent.chunks.append((self.parent.now(), bytes(data)))
         return len(data)
 
@@ -183,6 +186,7 @@ class TickStream(io.TextIOBase):
         self.kernel = kernel
         self.parts = []
         self.chunks = []
+        self.stall = None
         self.buffer = _Buf(self)
 
     def now(self):
